@@ -8,7 +8,7 @@ import (
 
 func init() {
 	Register("C02", "Decides structural necessary conditions of 'no input can crash any entry point': element accesses are guarded, panic values are errors, recovering entry points, recursion guards. Does NOT decide termination of loops in general or memory use.",
-		c02elem, c02varidx, c02ptype, c02escape, c10share("C02.share"), func(c *core.Ctx) { c06exampleAs(c, "C02.exbound") }, c02extpanic, c02intarg, c02recguard, c02ovf, func(c *core.Ctx) { c16renderAs(c, "C02.stdpanic") }, func(c *core.Ctx) { c17grammarAs(c, "C02.inv.enumlit") }, c02invNumber, pairingRule("C02.pairing", []string{"notations/jschema/scanner", "rules/enum", "formats/json"}), c02deleg("C02.deleg", []string{"notations/jschema/scanner", "rules/enum", "formats/json"}, 130))
+		convertAllRule("C02.convertall"), c02elem, c02varidx, c02ptype, c02escape, c10share("C02.share"), func(c *core.Ctx) { c06exampleAs(c, "C02.exbound") }, c02extpanic, c02intarg, c02recguard, c02ovf, func(c *core.Ctx) { c16renderAs(c, "C02.stdpanic") }, func(c *core.Ctx) { c17grammarAs(c, "C02.inv.enumlit") }, c02invNumber, pairingRule("C02.pairing", []string{"notations/jschema/scanner", "rules/enum", "formats/json"}), c02deleg("C02.deleg", []string{"notations/jschema/scanner", "rules/enum", "formats/json"}, 130))
 }
 
 func c02elem(c *core.Ctx) { c02elemAs(c, "C02.elem") }
